@@ -176,12 +176,12 @@ def deref_self_aliases(fn):
             binds[st.targets[0].id] = st.value
     if not binds:
         return fn
-    new = _copy.deepcopy(fn)
+    new = clone(fn)
 
     class R(_ast.NodeTransformer):
         def visit_Name(self, n):
             if isinstance(n.ctx, _ast.Load) and n.id in binds:
-                return _ast.copy_location(_copy.deepcopy(binds[n.id]), n)
+                return _ast.copy_location(clone(binds[n.id]), n)
             return n
     new = R().visit(new)
     _ast.fix_missing_locations(new)
@@ -207,19 +207,19 @@ def inline_straightline_calls(fn, funcs):
         class S(_ast.NodeTransformer):
             def visit_Name(self, n):
                 if isinstance(n.ctx, _ast.Load) and n.id in env:
-                    return _copy.deepcopy(env[n.id])
+                    return clone(env[n.id])
                 return n
         body = [s_ for s_ in g.body if not isinstance(s_, _ast.Pass) and not (isinstance(s_, _ast.Expr) and isinstance(s_.value, _ast.Constant))]
         if not body or not isinstance(body[-1], _ast.Return) or body[-1].value is None:
             return None
         for st in body[:-1]:
             if isinstance(st, _ast.Assign) and len(st.targets) == 1 and isinstance(st.targets[0], _ast.Name):
-                env[st.targets[0].id] = S().visit(_copy.deepcopy(st.value))
+                env[st.targets[0].id] = S().visit(clone(st.value))
             elif isinstance(st, _ast.AugAssign) and isinstance(st.target, _ast.Name) and st.target.id in env:
-                env[st.target.id] = _ast.BinOp(left=env[st.target.id], op=st.op, right=S().visit(_copy.deepcopy(st.value)))
+                env[st.target.id] = _ast.BinOp(left=env[st.target.id], op=st.op, right=S().visit(clone(st.value)))
             else:
                 return None
-        return params, S().visit(_copy.deepcopy(body[-1].value))
+        return params, S().visit(clone(body[-1].value))
     table = {}
     for name, g in funcs.items():
         if g is fn:
@@ -229,7 +229,7 @@ def inline_straightline_calls(fn, funcs):
             table[name] = r
     if not table or not any(isinstance(n, _ast.Call) and isinstance(n.func, _ast.Name) and n.func.id in table for n in _ast.walk(fn)):
         return fn
-    new = _copy.deepcopy(fn)
+    new = clone(fn)
 
     class R(_ast.NodeTransformer):
         def visit_Call(self, n):
@@ -242,9 +242,9 @@ def inline_straightline_calls(fn, funcs):
                     class P(_ast.NodeTransformer):
                         def visit_Name(self, x):
                             if isinstance(x.ctx, _ast.Load) and x.id in m:
-                                return _copy.deepcopy(m[x.id])
+                                return clone(m[x.id])
                             return x
-                    return _ast.copy_location(P().visit(_copy.deepcopy(expr)), n)
+                    return _ast.copy_location(P().visit(clone(expr)), n)
             return n
     new = R().visit(new)
     _ast.fix_missing_locations(new)
